@@ -404,19 +404,7 @@ theorem parseOverflowPage_ok (v : VersionIf) (hu : 4 < v.pageSize) (number : Nat
   by_cases hlast : (r ≤ (v.pageSize : Int) - g ∧ next ≠ 0)
   · rw [if_pos hlast] at h; cases h
   rw [if_neg hlast] at h
-  by_cases hn : next ≠ 0
-  · rw [if_pos hn] at h
-    cases hv : v.pageVersion next with
-    | error e => rw [hv] at h; cases h
-    | ok nv =>
-      rw [hv] at h
-      simp only [] at h
-      by_cases hpv : pv ≠ nv
-      · rw [if_pos hpv] at h; cases h
-      · rw [if_neg hpv] at h
-        exact key _ (Except.ok.inj h).symm hlast
-  · rw [if_neg hn] at h
-    exact key _ (Except.ok.inj h).symm hlast
+  exact key _ (Except.ok.inj h).symm hlast
 
 /-- chain invariant: `cur` was parsed with `r` bytes remaining, `rest` are the following pages -/
 def ChainOK (k : Nat) : Int → OvflPage → List OvflPage → Prop
@@ -593,16 +581,7 @@ theorem parseOverflowPage_no_rec (v : VersionIf)
   by_cases hlast : (r ≤ (v.pageSize : Int) - g ∧ next ≠ 0)
   · rw [if_pos hlast] at h; cases h
   rw [if_neg hlast] at h
-  by_cases hn : next ≠ 0
-  · rw [if_pos hn] at h
-    cases hv' : v.pageVersion next with
-    | error e => rw [hv'] at h; cases h; exact hv _ hv'
-    | ok nv =>
-      rw [hv'] at h
-      simp only [] at h
-      split at h <;> cases h
-  · rw [if_neg hn] at h
-    cases h
+  cases h
 
 theorem loop_no_rec (v : VersionIf) (hu : 4 < v.pageSize)
     (hv : ∀ p, v.pageVersion p ≠ .error .recursionError)
